@@ -1,19 +1,34 @@
 /- GENERATED: instance obligations for one logic, discharged by kernel evaluation.
-   `X ⊆ known`: every failing row is a committed known finding (Ptx/Gen/Known.lean). -/
+   `S` = the logic with its DOCUMENTED tables (Ptx/Sem/Spec.lean); rules, closure, trunk and frames
+   are what the translator read off the code.  `X ⊆ known`: every failing row is a committed
+   known finding (Ptx/Gen/Known.lean, generated from known_findings.json). -/
 import Ptx.Gen.L_NH
 import Ptx.Gen.Known
 import Ptx.Sem.Subset
+import Ptx.Props.C01
 namespace Ptx.Gen.Obl.NH
 open Ptx
 
-theorem tables_total : Gen.NH.tablesTotalB = true := by decide +kernel
-theorem rules_exact : subsetB Gen.NH.badRules (Known.badRules "NH") = true := by decide +kernel
-theorem rules_sound : subsetB Gen.NH.unsoundRules (Known.unsoundRules "NH") = true := by decide +kernel
-theorem rules_total : subsetB Gen.NH.missingRules (Known.missingRules "NH") = true := by decide +kernel
-theorem rules_local : Gen.NH.nonLocalRules = [] := by decide +kernel
-theorem closure_total : Gen.NH.closureTotalB = true := by decide +kernel
-theorem closure_exact : subsetB Gen.NH.badClosure (Known.badClosure "NH") = true := by decide +kernel
-theorem read_total : Gen.NH.readTotalB = true := by decide +kernel
-theorem read_exact : subsetB Gen.NH.badRead (Known.badRead "NH") = true := by decide +kernel
+/-- a modal / first-order extension has exactly the truth-functional tables of its base (NH) -/
+theorem base_tables : Gen.NH.tables.sameTF Gen.NH.tables = true := by decide +kernel
+theorem spec_defined : Gen.NH.specDefinedB = true := by decide +kernel
+theorem tables_spec : subsetB Gen.NH.tableDiff (Known.tableDiff "NH") = true := by decide +kernel
+theorem defined_ops : Gen.NH.tables.definedOpsBad = [] := by decide +kernel
+theorem tables_total : Gen.NH.sem.tablesTotalB = true := by decide +kernel
+theorem rules_exact : subsetB Gen.NH.sem.badRules (Known.badRules "NH") = true := by decide +kernel
+theorem rules_sound : subsetB Gen.NH.sem.unsoundRules (Known.unsoundRules "NH") = true := by decide +kernel
+theorem rules_total : subsetB Gen.NH.sem.missingRules (Known.missingRules "NH") = true := by decide +kernel
+theorem rules_local : Gen.NH.sem.nonLocalRules = [] := by decide +kernel
+theorem closure_total : Gen.NH.sem.closureTotalB = true := by decide +kernel
+theorem closure_exact : subsetB Gen.NH.sem.badClosure (Known.badClosure "NH") = true := by decide +kernel
+theorem read_total : Gen.NH.sem.readTotalB = true := by decide +kernel
+theorem read_exact : subsetB Gen.NH.sem.badRead (Known.badRead "NH") = true := by decide +kernel
+theorem sound_core : Gen.NH.sem.soundCoreB = true := by decide +kernel
+
+/-- C01 for this logic: a closed tableau reached by any legal derivation has no countermodel. -/
+theorem c01_valid_sound (arg : Argument) (t : Tableau)
+    (hd : Deriv Gen.NH.sem.soundPart.noQuantPart (trunk Gen.NH.sem arg) t) (hclosed : t.allClosed = true)
+    (M : Struct) (hM : M.Interp Gen.NH.sem) (e : Env M.D) (w0 : M.W) : ¬ Countermodel Gen.NH.sem M e w0 arg :=
+  Props.C01.C01_valid_sound_partial Gen.NH.sem sound_core arg t hd hclosed M hM e w0
 
 end Ptx.Gen.Obl.NH
